@@ -199,7 +199,7 @@ func (e *Exec) globalVar(o *types.Var) Val {
 	default:
 		e.declare(name, SInt)
 		if kindOf(o.Type()) == kRef {
-			if _, isIface := o.Type().Underlying().(*types.Interface); isIface && strings.HasPrefix(o.Name(), "Err") {
+			if _, isIface := o.Type().Underlying().(*types.Interface); isIface && (strings.HasPrefix(o.Name(), "Err") || strings.HasPrefix(o.Name(), "err")) {
 				e.addFact(mkNot(mkEq(name, "0"))) // sentinel errors are non-nil
 			}
 		}
